@@ -278,6 +278,18 @@ impl Check for C04 {
 pub struct C05Static;
 
 pub fn c05_static_eval(case: &Value) -> Outcome {
+    {
+        // "with an empty method list every input is reported not modified": also an input that mentions names with the
+        // reserved prefix (nothing is injected, so nothing can clash) - a refusal is not "not modified"
+        let (src, cfg, file) = case_parts(case);
+        if !cfg.anything_enabled() && crate::ast::parse(&src).is_ok() {
+            if let rw::Outcome::Err(e) = rw::rewrite_simple(&cfg.json, &src, &file) {
+                if e.contains("Variable name duplicated") {
+                    return Outcome::fail("C05:refused-with-empty-config", format!("nothing is enabled by the configuration but the rewrite is refused: {e}"));
+                }
+            }
+        }
+    }
     let a = match prepare(case) {
         Pre::Ready(a) => a,
         Pre::Done(o) => return o,
@@ -332,7 +344,21 @@ impl Check for C05Static {
         "C05"
     }
     fn decode(&self, tape: &[u8], _stream: usize) -> Value {
-        decode_prog_case(tape, false, false, false)
+        let mut case = decode_prog_case(tape, false, false, false);
+        // one case in five: nothing enabled at all, and the program mentions names with the reserved prefix
+        if tape.first().map(|b| b % 5 == 0).unwrap_or(false) {
+            let mut t = Tape::new(tape);
+            let mut o = opts_for(&info_from_json(&case["cfg"]), false);
+            o.reserved_prefix = Some("test".into());
+            let p = gen_program_t(&mut t, &o);
+            let mut cfg = case["cfg"].clone();
+            cfg["csiMethods"] = json!([]);
+            cfg["localVarPrefix"] = json!("test");
+            let mut tags: Vec<&str> = p.tags.iter().copied().collect();
+            tags.push("empty-config-reserved-names");
+            case = json!({"src": p.src, "cfg": cfg, "file": case["file"], "tags": tags, "redirected": p.redirected});
+        }
+        case
     }
     fn rule(&self) -> String {
         "pairs (cfg, program mentioning operations of all pool kinds); oracles: closed world of _ddiast.<name> (only configured dst), hook on a site \
